@@ -70,6 +70,18 @@ class CallMixin(object):
             for (f, v) in base[2]:
                 if f == attr:
                     return v
+        if k == "elem":
+            coll = strip_wrappers(base[1])
+            if coll[0] == "coll":
+                adds = self.coll_adds.get(coll[1], [])
+                vals = set()
+                for a in adds:
+                    if a["elem"][0] == "nt":
+                        vals.add(self.get_attr(a["elem"], attr, state, frame, node))
+                    else:
+                        vals.add(None)
+                if len(vals) == 1 and None not in vals:
+                    return vals.pop()
         if k == "merge":
             # attribute of a value merged over the callee's branches
             alts = tuple((pc, self.get_attr(v, attr, state, frame, node))
